@@ -1278,6 +1278,39 @@ def _sp_fmt0x(ex, st, args, kwargs, node):
     return [(st, strings.int_to_str_pad(ex, st, to_int(args[1]), args[0].conc(), hexa=True))]
 
 
+def _sp_fmtd(ex, st, args, kwargs, node):
+    from . import strings
+    return [(st, strings.int_to_str(ex, st, to_int(args[0])))]
+
+
+BUILTINS['fmtd'] = _sp_fmtd        # spec dialect: str(n)
+
+
+@builtin('map')
+def b_map(ex, st, args, kwargs, node):
+    """map(f, seq) over a sequence of known length (eager)"""
+    outs = as_seq(ex, st, args[1])
+    res = []
+    for s2, sq in outs:
+        if isinstance(sq, Raised):
+            res.append((s2, sq))
+            continue
+        if not sq.concrete:
+            raise Unsupported('map() over a sequence of symbolic length')
+        cur = [(s2, [])]
+        for item in sq.items:
+            nxt = []
+            for s3, acc in cur:
+                for s4, v in ex.call_value(s3, args[0], [item], {}, node):
+                    if isinstance(v, Raised):
+                        res.append((s4, v))
+                    else:
+                        nxt.append((s4, acc + [v]))
+            cur = nxt
+        res.extend((s3, VSeq(acc, kind='list')) for s3, acc in cur)
+    return res
+
+
 BUILTINS['fmt0d'] = _sp_fmt0d      # spec dialect: '%0Kd' % n
 BUILTINS['fmt0x'] = _sp_fmt0x      # spec dialect: '%0Kx' % n
 BUILTINS['floor'] = m_floor      # spec dialect
